@@ -17,7 +17,7 @@ class Ctx:
         want = ("build_plan", "needs_transfer", "is_excluded", "glob_match", "reconcile_path", "reconcile", "cas_decide")
 
         def keep(n):
-            return n in want or n.startswith(("needs_transfer::", "reconcile_path::", "reconcile::", "build_plan::")) \
+            return n in want or n.startswith(("needs_transfer::", "reconcile_path::", "reconcile::", "build_plan::", "is_excluded::", "glob_match::")) \
                 or n.startswith(("plan::", "reconcile::"))
         self.mir, self.mir_path, self.dump_s = env.load("bin", keep)
         self.idx = env.impl_index(self.mir)
@@ -27,6 +27,8 @@ class Ctx:
         e = Executor(self.mir, self.enums, K=K)
         e.impl_index = self.idx
         stdmodels.install_core(e)
+        from mirsmt import itermodels
+        itermodels.install(e)
         return e
 
     def fn(self, ex, name):
